@@ -564,6 +564,18 @@ def random_run(rng, *, kinds=("plain",), n_models=2, n_ids=3, length=40, mods="c
     names = [k for k, v in W.items() if v > 0]
     wts = [W[k] for k in names]
 
+    def spot_of_someone(m):
+        """The current position (in the trace's units) of some agent in model m's world, read from the live objects."""
+        try:
+            cands = [ag for ag in d.env(m) if PositionComponent in ag]
+            if not cands:
+                return None
+            pc = rng.choice(cands)[PositionComponent]
+            u = [d.to_units(m, v) for v in (pc.x, pc.y, pc.z)]
+            return None if any(x == BAD for x in u) else u
+        except Exception:  # noqa: BLE001
+            return None
+
     def resident(a):
         return d.where(a) is not None
 
@@ -610,6 +622,8 @@ def random_run(rng, *, kinds=("plain",), n_models=2, n_ids=3, length=40, mods="c
                 continue        # resident in another model's environment: one environment at a time
             p = None if cls == "plain" else [rng.choice(coord_pool(e, fine)) if rng.random() < 0.45 else
                                                (rng.randint(0, max(e - (0 if fine else 1), 0)) if e else 0) for e in ext]
+            if p is not None and rng.random() < 0.2:
+                p = spot_of_someone(m) or p          # exactly where another agent stands
             do(["join", a, p] if rng.random() < 0.7 else ["join", a, p, None, True])
         elif op == "leave":
             do(["leave", m, rng.choice(ids + ["nobody"]) if rng.random() < 0.5 else a[0]])
@@ -621,10 +635,16 @@ def random_run(rng, *, kinds=("plain",), n_models=2, n_ids=3, length=40, mods="c
         elif op == "move_to" and cls != "plain":
             p = [rng.choice(coord_pool(e, fine)) if rng.random() < 0.5 else
                  (rng.randint(0, max(e - (0 if fine else 1), 0)) if e else 0) for e in ext]
+            if rng.random() < 0.2:
+                p = spot_of_someone(m) or p
             do(["move_to", a, p])
         elif op == "agents_at" and cls != "plain":
             q = [rng.choice(coord_pool(e, fine)[:9]) for e in ext]
             lw = [-1, 0, 0, 1, 2, 4, 7]
+            spot = spot_of_someone(m) if rng.random() < 0.25 else None
+            if spot is not None:
+                do(["agents_at", m, spot, 0, [0, 0, 0]])          # who stands exactly here?
+                continue
             if not fine and rng.random() < 0.4:      # grid world: fractional query point / leeways, in quarter cells
                 lw4 = [-2, 0, 1, 2, 3, 4, 6, 10]
                 do(["agents_at", m, [4 * v + rng.choice([0, 0, 1, 2, 3, -2]) for v in q], rng.choice(lw4), [rng.choice(lw4) for _ in range(3)], True])
